@@ -7,8 +7,22 @@ FUNCS = ['solver.py:Solver.solve', 'solver.py:Solver._attempt_field', 'solver.py
          'solver.py:DependencyTracker.met_dependents (by its verified contract)', 'values.py:ValueStore.__setitem__', '__init__.py:solve']
 
 
+def rerun_lemma():
+    """Second sentence of C13 as a lemma over contracts: answers are stored as exactly the typed text and written/parsed with one
+    default dialect (A-CFG), the final state of run 1 is a stable state for C1 = C0 + answers (C01/C03/C04 obligations, re-discharged
+    in C05), and the Lean lemma `unique` makes run 2 end in that same state."""
+    from . import c05
+    from ..oblig import Ob
+    out = []
+    for o in c05.lean_lemma() + c05.store_setitem():
+        o.id = o.id.replace('C05/', 'C13/rerun/')
+        out.append(o)
+    return out
+
+
 def extra_tasks(tier, seed):
-    return []
+    from ..oblig import Task
+    return [Task('rerun', rerun_lemma)]
 
 
 def run(tier, seed, t0):
